@@ -38,8 +38,8 @@ ASSUMPTIONS = ["for thermal CX with several donors, a donor with non-positive de
                "hydrogen-isotope neutral densities of mixed sign are not generated for TotalRadiatedPower (statement silent)",
                "bremsstrahlung bins are chosen so that the integrand varies by at most ~e^8 over a bin",
                "coefficients are non-negative (mock provider); negative coefficients are outside the statement"]
-QUICK = dict(cases=1500, workers=2, timecap=45)
-THOROUGH = dict(cases=150000, workers=16, timecap=600)
+QUICK = dict(cases=3000, workers=2, timecap=45)
+THOROUGH = dict(cases=300000, workers=16, timecap=600)
 REQUIRED = {"total": 400, "rate_args": 300, "guard": 150, "nonneg": 400, "linearity": 150, "additivity": 50,
             "brems_bins": 200, "trp_bins": 100, "radfn_bins": 20}
 
@@ -51,6 +51,7 @@ ME = 9.1093837015e-31
 EPS0 = 8.8541878128e-12
 AMU = 1.66053906660e-27
 MUB = 5.7883818060e-5          # eV/T
+TRACE_RTOL = 1e-6              # Ray.trace route: chord length known to ~1e-9 m only
 HC_EV_NM = H * C * 1e9 / E
 
 ZNUM = {"hydrogen": 1, "deuterium": 1, "tritium": 1, "helium": 2, "helium3": 2, "lithium": 3, "beryllium": 4, "boron": 5,
@@ -194,7 +195,10 @@ def _gen_line(rng, case, uniform):
         ls["fwhm_l"] = _logu(rng, -3.5, -0.5)
         ls["aij"] = float(rng.uniform(0.5, 0.8))
         ls["bij"] = float(rng.uniform(0.01, 0.1))
-        ls["bins"] = int(rng.integers(8, 200))
+        ls["resolution"] = float(rng.uniform(0.05, 0.25))   # bin width / max(FWHM_L, FWHM_G): see _line_setup
+        target["t"] = _logu(rng, -1, 2)
+        target["v"] = [x * 0.01 for x in target["v"]]
+        case["b"] = [x * 0.05 for x in case["b"]]
     case["shape"] = ls
     # scenario
     r = rng.random()
@@ -398,3 +402,605 @@ def fixed_cases(tier):
              window=dict(min=300.0, max=700.0, bins=5)),
     ]
     return out
+
+
+# ------------------------------------------------------------------------------------------------------------------
+# harness-side plasma description (inputs): profiles pinned at the evaluation point
+# ------------------------------------------------------------------------------------------------------------------
+
+class Prof:
+    """f(r) = scale * v * exp(g . (r - r0)); f(r0) = scale * v exactly."""
+
+    def __init__(self, v, g, r0):
+        self.v, self.g, self.r0, self.scale = float(v), tuple(g), tuple(r0), 1.0
+
+    def __call__(self, x, y, z):
+        g, r0 = self.g, self.r0
+        return self.scale * self.v * math.exp(g[0] * (x - r0[0]) + g[1] * (y - r0[1]) + g[2] * (z - r0[2]))
+
+
+def _tr_key(tr):
+    return "->".join(str(x) for x in tr)
+
+
+def _element(name):
+    from cherab.core.atomic import elements
+    return getattr(elements, name)
+
+
+def _clip_box(o, d, lo, hi):
+    """Chord length of the ray o + t d (t >= 0, |d| = 1) inside the axis-aligned box [lo, hi]."""
+    t0, t1 = 0.0, float("inf")
+    for i in range(3):
+        if d[i] == 0.0:
+            if not (lo[i] < o[i] < hi[i]):
+                return 0.0
+            continue
+        a, b = (lo[i] - o[i]) / d[i], (hi[i] - o[i]) / d[i]
+        if a > b:
+            a, b = b, a
+        t0, t1 = max(t0, a), min(t1, b)
+    return max(0.0, t1 - t0)
+
+
+class Scene:
+    """Real cherab objects for one case + the independently evaluated plasma state at the point."""
+
+    def __init__(self, case):
+        from raysect.core import Point3D, Vector3D
+        from cherab.core import Plasma, Species, Maxwellian
+        self.case = case
+        pt = case["pt"]
+        self.ne_p = Prof(case["ne"], case["gne"], pt)
+        self.te_p = Prof(case["te"], case["gte"], pt)
+        self.n_p, self.t_p = [], []
+        plasma = Plasma()
+        plasma.electron_distribution = Maxwellian(self.ne_p, self.te_p, Vector3D(0, 0, 0), ME)
+        plasma.b_field = Vector3D(*case["b"])
+        comp = []
+        lin = case.get("lin") or {}
+        mutable = {lin.get("i"), lin.get("other")}
+        for i, sp in enumerate(case["species"]):
+            el = _element(sp["el"])
+            npf, tpf = Prof(sp["n"], sp["gn"], pt), Prof(sp["t"], sp["gt"], pt)
+            self.n_p.append(npf)
+            self.t_p.append(tpf)
+            # constants go through Constant3D, everything else through the Python-callable wrapper
+            dens = sp["n"] if (not any(sp["gn"]) and i not in mutable) else npf
+            temp = sp["t"] if not any(sp["gt"]) else tpf
+            comp.append(Species(el, sp["q"], Maxwellian(dens, temp, Vector3D(*sp["v"]), el.atomic_weight * AMU)))
+        plasma.composition = comp
+        self.plasma = plasma
+        self.point = Point3D(*pt)
+        d = np.asarray(case["dir"], dtype=float)
+        self.direction = Vector3D(*d)
+        self.provider = M.make_provider(case["seed"], zero_keys=[(f, tuple(k)) for f, k in case["zero_keys"]],
+                                        real_gaunt=case.get("gaunt") == "real")
+        self.world = None
+
+    # plasma state at the point, from the case description only
+    def state(self):
+        pt = self.case["pt"]
+        return dict(ne=self.ne_p(*pt), te=self.te_p(*pt), n=[p(*pt) for p in self.n_p], t=[p(*pt) for p in self.t_p])
+
+    def attach(self, model):
+        from raysect.core import Point3D
+        from raysect.primitive import Box
+        case = self.case
+        if case["route"] == "direct":
+            model.plasma = self.plasma
+            model.atomic_data = self.provider
+            return
+        if case["route"] == "attached":
+            self.plasma.geometry = Box(Point3D(-1, -1, -1), Point3D(1, 1, 1))
+        else:
+            from raysect.optical import World
+            from raysect.optical.material.emitter.inhomogeneous import NumericalIntegrator
+            sl = case["slab"]
+            self.world = World()
+            self.plasma.parent = self.world
+            self.plasma.geometry = Box(Point3D(0, -2, -2), Point3D(sl["length"], 2, 2))
+            self.plasma.integrator = NumericalIntegrator(step=sl["step"])
+        self.plasma.atomic_data = self.provider
+        self.plasma.models = [model]
+
+    def observe(self, model, window, prefill=None):
+        """One observation: samples added by the model (W/m^3/sr/nm for emission(), W/m^2/sr/nm for a traced ray)
+        and the path length multiplying the emissivity."""
+        from raysect.optical import Spectrum, Ray
+        from raysect.core import Point3D, Vector3D
+        if self.case["route"] != "trace":
+            s = Spectrum(window["min"], window["max"], window["bins"])
+            if prefill is not None:
+                s.samples[:] = prefill
+            out = model.emission(self.point, self.direction, s)
+            return np.array(out.samples, dtype=float), 1.0
+        sl = self.case["slab"]
+        a = sl["angle"]
+        d = (-math.cos(a), math.sin(a), 0.0)
+        o = (sl["length"] / 2 - 2.5 * sl["length"] * d[0], -2.5 * sl["length"] * d[1], 0.0)
+        ray = Ray(origin=Point3D(*o), direction=Vector3D(*d), min_wavelength=window["min"], max_wavelength=window["max"],
+                  bins=window["bins"])
+        out = ray.trace(self.world)
+        chord = _clip_box(o, d, (0.0, -2.0, -2.0), (sl["length"], 2.0, 2.0))
+        return np.array(out.samples, dtype=float), chord
+
+
+# ------------------------------------------------------------------------------------------------------------------
+# line models
+# ------------------------------------------------------------------------------------------------------------------
+
+def _line_setup(case, st, scene):
+    """Model constructor arguments and the spectral window that contains every component of the line."""
+    from cherab.core import model as cm
+    from cherab.core.atomic.zeeman import ZeemanStructure
+    ln, ls = case["line"], case["shape"]
+    lam0 = M.wavelength_value(case["seed"], (ln["el"], ln["q"], _tr_key(ln["tr"])))
+    ti = [i for i, sp in enumerate(case["species"]) if sp.get("role") == "target"][0]
+    tsp = case["species"][ti]
+    ts = st["t"][ti]
+    aw = _element(ln["el"]).atomic_weight
+    bmag = math.sqrt(sum(x * x for x in case["b"]))
+    vmag = math.sqrt(sum(x * x for x in tsp["v"]))
+    sigma = math.sqrt(ts * E / (aw * AMU)) * lam0 / C if ts > 0 else 0.0
+    centres = [lam0]
+    args, kwargs, cls = [], {}, None
+    extra = 0.0
+    name = ls["name"]
+    if name == "gaussian":
+        cls = cm.GaussianLine if case["seed"] % 2 else None
+    elif name in ("zeeman_triplet", "stark"):
+        cls = cm.ZeemanTriplet if name == "zeeman_triplet" else cm.StarkBroadenedLine
+        e0 = HC_EV_NM / lam0
+        centres += [HC_EV_NM / (e0 - MUB * bmag), HC_EV_NM / (e0 + MUB * bmag)]
+        if name == "stark":
+            ne, te = st["ne"], st["te"]
+            cij = ls["fwhm_l"] / (ne ** ls["aij"] / te ** ls["bij"]) if ne > 0 and te > 0 else 1e-20
+            kwargs = dict(stark_model_coefficients=(cij, ls["aij"], ls["bij"]))
+            wmax = max(ls["fwhm_l"], 2.3548200450309493 * sigma)
+            extra = 100.0 * wmax
+    elif name == "param_zeeman":
+        cls = cm.ParametrisedZeemanTriplet
+        al, be, ga = ls["params"]
+        kwargs = dict(line_parameters=(al, be, ga))
+        centres += [lam0 + 0.5 * al * bmag, lam0 - 0.5 * al * bmag]
+        if ts > 0:
+            sigma *= math.sqrt(1.0 + be * be * ts ** (2.0 * ga))
+    elif name == "multiplet":
+        cls = cm.MultipletLineShape
+        centres = [lam0 + o for o in ls["offsets"]]
+        args = [[centres, ls["ratios"]]]
+    elif name == "zeeman_multiplet":
+        cls = cm.ZeemanMultiplet
+        comp = lambda lst: [(lam0 + o, r) for o, r in lst]
+        kwargs = dict(zeeman_structure=ZeemanStructure(comp(ls["pi"]), comp(ls["sp"]), comp(ls["sm"])))
+        centres += [lam0 + o for o, _ in ls["pi"] + ls["sp"] + ls["sm"]]
+    half = ls["margin"] * sigma + extra + 1e-3
+    lo = min(centres) * (1.0 - vmag / C) - half
+    hi = max(centres) * (1.0 + vmag / C) + half
+    window = dict(min=lo, max=hi, bins=ls["bins"])
+    if name == "stark":
+        # the modified Lorentzian is integrated per bin by GaussianQuadrature(1e-5, max order 50), which is only accurate
+        # (<= 7e-5 of the line, probed) when a bin is narrower than ~0.3 FWHM; coarser bins are C02's business
+        window["bins"] = int(math.ceil((hi - lo) / (ls["resolution"] * wmax)))
+    from cherab.core.atomic import Line
+    line = Line(_element(ln["el"]), ln["q"], tuple(ln["tr"]))
+    mk = dict(exc=cm.ExcitationLine, rec=cm.RecombinationLine, tcx=cm.ThermalCXLine)[case["kind"]]
+    model = mk(line, lineshape=cls, lineshape_args=args, lineshape_kwargs=kwargs)
+    return model, window, ti
+
+
+def _line_oracle(case, st):
+    """Documented wavelength-integrated emission; returns (want, accepted alternatives, per-term dict)."""
+    kind, ln, seed = case["kind"], case["line"], case["seed"]
+    zero = set((f, tuple(k)) for f, k in case["zero_keys"])
+    ne, te = st["ne"], st["te"]
+    ti = [i for i, sp in enumerate(case["species"]) if sp.get("role") == "target"][0]
+    ni, ts = st["n"][ti], st["t"][ti]
+    trk = _tr_key(ln["tr"])
+    dead = ne <= 0 or te <= 0 or ni <= 0 or (ts <= 0 and case["shape"]["name"] != "stark")
+    if kind in ("exc", "rec"):
+        key = (ln["el"], ln["q"], trk)
+        if dead:
+            return 0.0, [], {}
+        return M.rate_value(seed, kind, key, (ne, te), (kind, key) in zero) * ne * ni / (4 * math.pi), [], {}
+    terms, hostile = {}, False
+    for i, sp in enumerate(case["species"]):
+        if i == ti or sp["q"] >= ZNUM[sp["el"]]:
+            continue
+        key = (sp["el"], sp["q"], ln["el"], trk)
+        nd, td = st["n"][i], st["t"][i]
+        if nd <= 0 or td <= 0:
+            hostile = hostile or nd < 0 or td <= 0
+            terms[key] = 0.0
+        else:
+            terms[key] = nd * M.rate_value(seed, "tcx", key, (ne, te, td), ("tcx", key) in zero)
+    if dead:
+        return 0.0, [], terms
+    want = ni * sum(terms.values()) / (4 * math.pi)
+    return want, ([0.0] if hostile else []), terms
+
+
+def _events(provider, family):
+    ev = {}
+    for e in provider.events:
+        if e[0] == "eval" and e[1] == family:
+            ev.setdefault(e[2], []).append(e[3])
+    return ev
+
+
+def _check_rate_args(ctx, provider, family, key, want_args, kind, detail):
+    """Every recorded evaluation of `family` must be on the documented key with the plasma values as arguments."""
+    ev = _events(provider, family)
+    ok_key = True
+    for k, calls in ev.items():
+        if k != key:
+            ok_key = False
+            ctx.viol("%s:rate-key:%s" % (kind, family), "coefficient evaluated for lookup key %r, documented key is %r" % (k, key), **detail)
+            continue
+        arr = np.array(calls, dtype=float)
+        ctx.close(arr, np.broadcast_to(np.array(want_args, dtype=float), arr.shape), "%s:rate-args:%s" % (kind, family),
+                  "coefficient %s evaluated at arguments other than the plasma values at the point" % family,
+                  rtol=1e-14, monitor="rate_args", **detail)
+    return ok_key, len(ev.get(key, []))
+
+
+def _run_line(case, ctx):
+    kind, scen = case["kind"], case["scenario"]
+    scene = Scene(case)
+    st = scene.state()
+    model, window, ti = _line_setup(case, st, scene)
+    shape = case["shape"]["name"]
+    ctx.cls("shape:" + shape)
+    if window["min"] < 2.0:
+        ctx.skip("line window would reach non-positive wavelengths")
+        return
+    if window["bins"] > 8000:
+        ctx.skip("resolved Stark window would need more than 8000 bins")
+        return
+    scene.attach(model)
+    got, path = scene.observe(model, window)
+    dl = (window["max"] - window["min"]) / window["bins"]
+    want, alts, terms = _line_oracle(case, st)
+    want *= path
+    total = float(got.sum() * dl)
+    detail = dict(route=case["route"], shape=shape, scenario=scen)
+    finite = ctx.check(bool(np.all(np.isfinite(got))), "%s:non-finite" % kind, "non-finite sample in the emitted spectrum",
+                       monitor="nonneg", **detail)
+    if not finite:
+        return
+    key = "%s:total" % kind if scen in ("positive", "zero-rate") else "%s:guard:%s" % (kind, scen)
+    if scen not in ("positive", "zero-rate"):
+        ctx.nontrivial()
+    if want == 0.0 and not alts:
+        # guarded quantity non-positive (or identically zero coefficient): the spectrum must stay untouched
+        if scen == "zero-rate":
+            ctx.check(bool(np.all(got == 0.0)), key, "non-zero emission although every coefficient involved is identically zero",
+                      monitor="total", total=total, **detail)
+        else:
+            ctx.check(bool(np.all(got == 0.0)), key, "non-zero emission although a density/temperature the emission depends on is non-positive",
+                      monitor="guard", total=total, min_sample=float(got.min()), **detail)
+    else:
+        ctx.nontrivial(want != 0.0)
+        # traced rays: Raysect's hit points differ from the analytic chord by ~1e-9 m (see DESIGN C10)
+        rt = 1e-9 if case["route"] != "trace" else TRACE_RTOL
+        lo_f, hi_f = (1 - rt, 1 + rt) if shape != "stark" else (1 - 1e-3, 1 + 1e-3)
+        cands = [want] + [a * path for a in alts]
+        best = None
+        for c in cands:
+            tol = max(abs(c) * (hi_f - 1.0), 0.0) if c != 0 else 0.0
+            centre = c * (lo_f + hi_f) / 2.0
+            half = abs(c) * (hi_f - lo_f) / 2.0
+            r = abs(total - centre) / half if half > 0 else (0.0 if total == 0.0 and bool(np.all(got == 0.0)) else float("inf"))
+            best = r if best is None else min(best, r)
+        mon = "total" if scen in ("positive", "zero-rate") else "guard"
+        ctx.mon(mon)
+        ctx.margin(mon if shape != "stark" else mon + "_stark", best)
+        if best > 1.0:
+            k2 = key
+            if kind == "tcx" and scen == "positive":
+                k2 = _tcx_diagnose(case, scene, st, ti)
+            ctx.viol(k2, "wavelength-integrated emission differs from the documented expression" if scen in ("positive", "zero-rate") else
+                     "emission with a non-positive density/temperature is neither zero nor the sum of the remaining terms",
+                     got=total, want=want, alternatives=cands[1:], rel=abs(total - want) / (abs(want) + 1e-300),
+                     min_sample=float(got.min()), **detail)
+    # never negative for non-negative coefficients
+    peak = float(np.abs(got).max())
+    ctx.check(bool(got.min() >= -1e-12 * peak), "%s:negative-sample" % kind if scen in ("positive", "zero-rate") else key,
+              "negative spectral sample although all coefficients are non-negative", monitor="nonneg",
+              min_sample=float(got.min()), peak=peak, **detail)
+    # which arguments reached which coefficient
+    if kind in ("exc", "rec"):
+        ln = case["line"]
+        _, n = _check_rate_args(ctx, scene.provider, kind, (ln["el"], ln["q"], _tr_key(ln["tr"])), (st["ne"], st["te"]), kind, detail)
+        if want != 0.0:
+            ctx.check(n > 0, "%s:rate-not-evaluated" % kind, "non-zero expected emission but the documented coefficient was never evaluated",
+                      monitor="rate_args", **detail)
+    else:
+        ev = _events(scene.provider, "tcx")
+        bykey = {(sp["el"], sp["q"], case["line"]["el"], _tr_key(case["line"]["tr"])): i for i, sp in enumerate(case["species"])}
+        for k, calls in ev.items():
+            if k not in bykey:
+                ctx.viol("tcx:rate-key:tcx", "thermal CX coefficient evaluated for a donor that is not in the plasma: %r" % (k,), **detail)
+                continue
+            arr = np.array(calls, dtype=float)
+            wantargs = (st["ne"], st["te"], st["t"][bykey[k]])
+            ctx.close(arr, np.broadcast_to(np.array(wantargs), arr.shape), "tcx:rate-args:tcx",
+                      "thermal CX coefficient evaluated at arguments other than (n_e, T_e, T_donor) at the point", rtol=1e-14,
+                      monitor="rate_args", **detail)
+        for e in scene.provider.events:
+            if e[0] == "access" and e[1] == "tcx":
+                ctx.check(e[3] == case["line"]["q"] + 1, "tcx:accessor-receiver-charge",
+                          "thermal_cx_pec requested with a receiver charge other than the charge of the receiver species (line charge + 1)",
+                          monitor="rate_args", got=e[3], want=case["line"]["q"] + 1)
+    if case["route"] != "trace":
+        _additivity(case, ctx, scene, model, window, got, kind)
+    _linearity(case, ctx, scene, model, window, got, kind, exact=True)
+
+
+def _tcx_diagnose(case, scene, st, ti):
+    ev = _events(scene.provider, "tcx")
+    ln = case["line"]
+    elig, inelig = set(), set()
+    for i, sp in enumerate(case["species"]):
+        k = (sp["el"], sp["q"], ln["el"], _tr_key(ln["tr"]))
+        (elig if (i != ti and sp["q"] < ZNUM[sp["el"]]) else inelig).add(k)
+    if any(k in inelig for k in ev):
+        return "tcx:ineligible-donor-included"
+    if any(k not in ev for k in elig):
+        return "tcx:eligible-donor-missing"
+    return "tcx:total"
+
+
+# ------------------------------------------------------------------------------------------------------------------
+# metamorphic monitors (oracle-free)
+# ------------------------------------------------------------------------------------------------------------------
+
+def _additivity(case, ctx, scene, model, window, got, kind):
+    if not case.get("prefill"):
+        return
+    rng = np.random.default_rng(case["seed"])
+    scale = float(np.abs(got).max()) or 1.0
+    pre = scale * rng.uniform(0.0, 2.0, size=got.size)
+    out, _ = scene.observe(model, window, prefill=pre)
+    ctx.close(out, pre + got, "%s:not-additive" % kind, "emission() does not add its contribution to the spectrum it is given",
+              atol=1e-14 * (scale + np.abs(pre).max()), monitor="additivity", route=case["route"])
+
+
+def _linearity(case, ctx, scene, model, window, got, kind, exact, rtol=None):
+    lin = case.get("lin")
+    if not lin:
+        return
+    i, k = lin["i"], lin["k"]
+    role = case["species"][i].get("role", "ion")
+    p = scene.n_p[i]
+    p.scale = 0.0
+    e0, _ = scene.observe(model, window)
+    p.scale = k
+    ek, _ = scene.observe(model, window)
+    p.scale = 1.0
+    rt = 1e-11 if exact else rtol
+    tol = rt * (np.abs(e0) + (1 + k) * np.abs(got) + np.abs(ek)) + 1e-300
+    err = np.abs((ek - e0) - k * (got - e0))
+    ctx.mon("linearity", int(got.size))
+    ctx.margin("linearity", float((err / tol).max()))
+    if (err > tol).any():
+        j = int(np.argmax(err / tol))
+        ctx.viol("%s:linearity:%s" % (kind, role), "emission is not linear in the density of an involved species "
+                 "(E(k n) - E(0) != k (E(n) - E(0)))", k=k, e0=float(e0[j]), e1=float(got[j]), ek=float(ek[j]), route=case["route"])
+    if np.abs(got).max() > 0:
+        ctx.nontrivial()
+    o = lin.get("other")
+    if o is not None:
+        scene.n_p[o].scale = k
+        eo, _ = scene.observe(model, window)
+        scene.n_p[o].scale = 1.0
+        ctx.check(bool(np.array_equal(eo, got)), "%s:unrelated-species-dependence" % kind,
+                  "emission changed when the density of a species it does not involve was scaled", monitor="linearity",
+                  species=[case["species"][o]["el"], case["species"][o]["q"]], route=case["route"])
+
+
+# ------------------------------------------------------------------------------------------------------------------
+# total radiated power
+# ------------------------------------------------------------------------------------------------------------------
+
+def _run_trp(case, ctx):
+    from cherab.core.model import TotalRadiatedPower
+    scen, seed = case["scenario"], case["seed"]
+    scene = Scene(case)
+    st = scene.state()
+    el, q = case["elem"]["el"], case["elem"]["q"]
+    model = TotalRadiatedPower(_element(el), q)
+    scene.attach(model)
+    window = case["window"]
+    got, path = scene.observe(model, window)
+    zero = set((f, tuple(k)) for f, k in case["zero_keys"])
+    ne, te = st["ne"], st["te"]
+    ni = nu = None
+    hyd = []
+    for i, sp in enumerate(case["species"]):
+        if (sp["el"], sp["q"]) == (el, q):
+            ni = st["n"][i]
+        if (sp["el"], sp["q"]) == (el, q + 1):
+            nu = st["n"][i]
+        if sp["el"] in HYD and sp["q"] == 0:
+            hyd.append(st["n"][i])
+    detail = dict(route=case["route"], scenario=scen)
+    if hyd and min(hyd) < 0 < max(hyd):
+        ctx.skip("hydrogen-isotope neutral densities of mixed sign (statement silent)")
+        return
+    nhyd = sum(hyd)
+    pd = 0.0
+    if ne > 0 and te > 0:
+        if ni > 0:
+            pd += M.rate_value(seed, "plt", (el, q), (ne, te), ("plt", (el, q)) in zero) * ne * ni
+        if nu > 0:
+            pd += M.rate_value(seed, "prb", (el, q + 1), (ne, te), ("prb", (el, q + 1)) in zero) * ne * nu
+        if nu > 0 and nhyd > 0:
+            pd += M.rate_value(seed, "prc", (el, q + 1), (ne, te), ("prc", (el, q + 1)) in zero) * nhyd * nu
+    want = pd / (4 * math.pi * (window["max"] - window["min"])) * path
+    key = "trp:total" if scen in ("positive", "zero-rate") else "trp:guard:%s" % scen
+    if not ctx.check(bool(np.all(np.isfinite(got))), "trp:non-finite", "non-finite sample", monitor="nonneg", **detail):
+        return
+    ctx.nontrivial(want != 0.0 or scen not in ("positive", "zero-rate"))
+    if scen not in ("positive", "zero-rate"):
+        ctx.mon("guard")
+    if want == 0.0:
+        ctx.check(bool(np.all(got == 0.0)), key, "non-zero total radiated power although every documented term vanishes",
+                  monitor="trp_bins", max_sample=float(np.abs(got).max()), **detail)
+    else:
+        ctx.close(got, np.full(got.size, want), key, "total radiated power is not the documented three-term sum spread uniformly "
+                  "over the spectral window", rtol=1e-12 if case["route"] != "trace" else TRACE_RTOL, monitor="trp_bins", **detail)
+        ctx.mon("total")
+    ctx.check(bool(got.min() >= 0.0), "trp:negative-sample" if scen in ("positive", "zero-rate") else key,
+              "negative sample although all coefficients are non-negative", monitor="nonneg", min_sample=float(got.min()), **detail)
+    for fam, k in (("plt", (el, q)), ("prb", (el, q + 1)), ("prc", (el, q + 1))):
+        _check_rate_args(ctx, scene.provider, fam, k, (ne, te), "trp", detail)
+    if case["route"] != "trace":
+        _additivity(case, ctx, scene, model, window, got, "trp")
+    _linearity(case, ctx, scene, model, window, got, "trp", exact=True)
+
+
+# ------------------------------------------------------------------------------------------------------------------
+# bremsstrahlung (Hutchinson 5.3.40)
+# ------------------------------------------------------------------------------------------------------------------
+
+_GLX, _GLW = np.polynomial.legendre.leggauss(40)
+BREMS_K = (E ** 2 / (4 * math.pi * EPS0)) ** 3 * 32 * math.pi ** 2 / (3 * math.sqrt(3) * ME ** 2 * C ** 3) * math.sqrt(2 * ME / (math.pi * E))
+
+
+def _brems_bin_average(window, ne, te, ions, gaunt):
+    """Bin averages of eps(lambda) = K/(4 pi) (1e9 c / lambda^2) n_e T_e^-1/2 sum_i n_i Z_i^2 g(Z_i, T_e, lambda) exp(-hc/(e T_e lambda))
+    by composite 40-point Gauss-Legendre."""
+    lo, hi, bins = window["min"], window["max"], window["bins"]
+    dl = (hi - lo) / bins
+    a = HC_EV_NM / te
+    out = np.zeros(bins)
+    pref = BREMS_K / (4 * math.pi) * C * 1e9 * ne / math.sqrt(te)
+    for b in range(bins):
+        l0, l1 = lo + b * dl, lo + (b + 1) * dl
+        nsub = int(max(1, math.ceil((dl / l0) * max(abs(a / l0 - 2.0), 2.0) / 2.0)))
+        acc = 0.0
+        for s in range(nsub):
+            s0, s1 = l0 + (l1 - l0) * s / nsub, l0 + (l1 - l0) * (s + 1) / nsub
+            x = 0.5 * (s0 + s1) + 0.5 * (s1 - s0) * _GLX
+            f = np.zeros_like(x)
+            for z, n in ions:
+                f += n * z * z * gaunt(z, te, x)
+            f *= pref / (x * x) * np.exp(-a / x)
+            acc += 0.5 * (s1 - s0) * float(np.dot(_GLW, f))
+        out[b] = acc / dl
+    return out
+
+
+def _run_brems(case, ctx):
+    from cherab.core.model import Bremsstrahlung
+    from cherab.core.math.integrators import GaussianQuadrature
+    scen, seed = case["scenario"], case["seed"]
+    scene = Scene(case)
+    st = scene.state()
+    gk, ik = case["gaunt"], case["integrator"]
+    ctx.cls("brems:gaunt:" + gk)
+    ctx.cls("brems:integrator:" + ik)
+    integ = None
+    if ik == "tight":
+        integ = GaussianQuadrature(relative_tolerance=1e-10, min_order=4)
+    elif ik == "fixed":
+        integ = GaussianQuadrature(min_order=24, max_order=24)
+    model = Bremsstrahlung(gaunt_factor=scene.provider.MockGaunt() if gk == "argument" else None, integrator=integ)
+    scene.attach(model)
+    window = case["window"]
+    got, path = scene.observe(model, window)
+    ne, te = st["ne"], st["te"]
+    detail = dict(route=case["route"], scenario=scen, gaunt=gk, integrator=ik)
+    if not ctx.check(bool(np.all(np.isfinite(got))), "brems:non-finite", "non-finite sample", monitor="nonneg", **detail):
+        return
+    ions = [(float(sp["q"]), st["n"][i]) for i, sp in enumerate(case["species"]) if sp["q"] > 0 and st["n"][i] > 0]
+    key = "brems:total" if scen == "positive" else "brems:guard:%s" % scen
+    if scen != "positive":
+        ctx.mon("guard")
+        ctx.nontrivial()
+    if ne <= 0 or te <= 0 or not ions:
+        ctx.check(bool(np.all(got == 0.0)), key, "non-zero bremsstrahlung although n_e, T_e or every ion density is non-positive",
+                  monitor="brems_bins", max_sample=float(np.abs(got).max()), **detail)
+        return
+    if gk == "real":
+        from cherab.core.atomic import MaxwellianFreeFreeGauntFactor
+        g = MaxwellianFreeFreeGauntFactor()
+        gaunt = lambda z, t, x: np.array([g(z, t, float(xx)) for xx in x])
+    else:
+        gaunt = lambda z, t, x: M.gaunt_value(seed, z, t, x)
+    want = _brems_bin_average(window, ne, te, ions, gaunt) * path
+    if ik == "default":
+        rtol = 2e-4        # GaussianQuadrature(relative_tolerance=1e-5) per bin
+    else:
+        rtol = 1e-7 if gk != "real" else 2e-5
+    if case["route"] == "trace":
+        rtol += TRACE_RTOL
+    if float(want.max()) > 1e-280:
+        ctx.nontrivial()
+    ctx.close(got, want, key, "bremsstrahlung bin average differs from the Hutchinson 5.3.40 expression with the provider's Gaunt factor",
+              rtol=rtol, atol=1e-300, monitor="brems_bins", **detail)
+    ctx.mon("total")
+    ctx.check(bool(got.min() >= 0.0), "brems:negative-sample" if scen == "positive" else key,
+              "negative sample although the Gaunt factor is positive", monitor="nonneg", min_sample=float(got.min()), **detail)
+    # arguments that reached the Gaunt factor
+    if gk != "real":
+        calls = np.array([e[3] for e in scene.provider.events if e[0] == "eval" and e[1] == "gaunt"], dtype=float)
+        if calls.size:
+            zs = set(z for z, _ in ions)
+            ok = bool(np.all(calls[:, 1] == te)) and set(calls[:, 0].tolist()) <= zs and \
+                bool(np.all((calls[:, 2] >= window["min"] * (1 - 1e-12)) & (calls[:, 2] <= window["max"] * (1 + 1e-12))))
+            ctx.check(ok, "brems:gaunt-args", "Gaunt factor evaluated at (Z, T_e, wavelength) other than an ion charge present with "
+                      "positive density, the electron temperature at the point and a wavelength inside the window", monitor="rate_args",
+                      zs=sorted(set(calls[:, 0].tolist())), te_seen=sorted(set(calls[:, 1].tolist()))[:3], te=te, **detail)
+        else:
+            ctx.viol("brems:gaunt-not-evaluated", "non-zero bremsstrahlung expected but the provider's Gaunt factor was never evaluated", **detail)
+    if case["route"] != "trace":
+        _additivity(case, ctx, scene, model, window, got, "brems")
+    _linearity(case, ctx, scene, model, window, got, "brems", exact=(ik == "fixed"), rtol=1e-4 if ik == "default" else 1e-8)
+
+
+# ------------------------------------------------------------------------------------------------------------------
+# RadiationFunction material
+# ------------------------------------------------------------------------------------------------------------------
+
+def _run_radfn(case, ctx):
+    from raysect.core import Point3D, Vector3D
+    from raysect.optical import World, Ray
+    from raysect.primitive import Box
+    from cherab.tools.emitters import RadiationFunction
+    sx, sy, sz = case["size"]
+    power = case["power"] if case["scenario"] == "positive" else 0.0
+    world = World()
+    fn = power if case["window"]["bins"] % 2 else (lambda x, y, z: power)
+    Box(Point3D(0, 0, 0), Point3D(sx, sy, sz), parent=world, material=RadiationFunction(fn, step=case["step"]))
+    a = case["angle"]
+    d = (-math.cos(a), math.sin(a), 0.0)
+    o = (sx / 2 - 3.0 * d[0], sy / 2 - 3.0 * d[1], sz / 2)
+    w = case["window"]
+    ray = Ray(origin=Point3D(*o), direction=Vector3D(*d), min_wavelength=w["min"], max_wavelength=w["max"], bins=w["bins"])
+    got = np.array(ray.trace(world).samples, dtype=float)
+    chord = _clip_box(o, d, (0, 0, 0), (sx, sy, sz))
+    want = power / (4 * math.pi * (w["max"] - w["min"])) * chord
+    ctx.nontrivial(want != 0.0)
+    if want == 0.0:
+        ctx.check(bool(np.all(got == 0.0)), "radfn:total", "RadiationFunction with zero power radiates", monitor="radfn_bins")
+    else:
+        ctx.close(got, np.full(got.size, want), "radfn:total", "RadiationFunction does not radiate power/(4 pi) spread uniformly over the "
+                  "spectral range times the chord length", rtol=TRACE_RTOL, monitor="radfn_bins", chord=chord)
+
+
+def run_case(case, ctx):
+    kind = case["kind"]
+    ctx.cls(kind)
+    ctx.cls("route:" + case["route"])
+    ctx.cls("%s:%s" % (kind, case["scenario"]))
+    if kind in LINE_KINDS:
+        _run_line(case, ctx)
+    elif kind == "trp":
+        _run_trp(case, ctx)
+    elif kind == "brems":
+        _run_brems(case, ctx)
+    else:
+        _run_radfn(case, ctx)
